@@ -230,6 +230,46 @@ func ruleAugOnce(c *Ctx) []Obligation {
 	return obs
 }
 
+// phaseHost finds the call satisfying pred in fn or in a helper fn calls statically (same package, depth <= 2):
+// a phase of Process may be extracted into a helper without changing what it does.
+func (c *Ctx) phaseHost(fn *ssa.Function, pred func(ssa.CallInstruction) bool, depth int) (*ssa.Function, ssa.CallInstruction) {
+	for _, ci := range callsIn(fn, pred) {
+		return fn, ci
+	}
+	if depth == 0 {
+		return nil, nil
+	}
+	for _, ci := range callsIn(fn, func(ssa.CallInstruction) bool { return true }) {
+		cal := ci.Common().StaticCallee()
+		if cal == nil || cal == fn || cal.Blocks == nil || cal.Pkg != fn.Pkg {
+			continue
+		}
+		if h, site := c.phaseHost(cal, pred, depth-1); h != nil {
+			return h, site
+		}
+	}
+	return nil, nil
+}
+
+// phaseSites: the call instructions of fn that perform the phase identified by pred, directly or through a helper.
+func (c *Ctx) phaseSites(fn *ssa.Function, pred func(ssa.CallInstruction) bool) []ssa.CallInstruction {
+	var out []ssa.CallInstruction
+	for _, ci := range callsIn(fn, func(ssa.CallInstruction) bool { return true }) {
+		if pred(ci) {
+			out = append(out, ci)
+			continue
+		}
+		cal := ci.Common().StaticCallee()
+		if cal == nil || cal == fn || cal.Blocks == nil || cal.Pkg != fn.Pkg {
+			continue
+		}
+		if h, _ := c.phaseHost(cal, pred, 1); h != nil {
+			out = append(out, ci)
+		}
+	}
+	return out
+}
+
 func ruleAugFixpoint(c *Ctx) []Obligation {
 	const R = "AUG.FIXPOINT"
 	var obs []Obligation
@@ -238,12 +278,16 @@ func ruleAugFixpoint(c *Ctx) []Obligation {
 	pos := c.Pos(proc.Pos())
 	// the retrying call: Augment(false)
 	var retry *ssa.Call
-	for _, ci := range c.callsTo(proc, aug) {
-		if call, okc := ci.(*ssa.Call); okc && len(call.Call.Args) == 2 {
-			if k, okk := call.Call.Args[1].(*ssa.Const); okk && k.Value != nil && k.Value.String() == "false" {
-				retry = call
-			}
+	host, site := c.phaseHost(proc, func(ci ssa.CallInstruction) bool {
+		if ci.Common().StaticCallee() != aug || len(ci.Common().Args) != 2 {
+			return false
 		}
+		k, okk := ci.Common().Args[1].(*ssa.Const)
+		return okk && k.Value != nil && k.Value.String() == "false"
+	}, 2)
+	if host != nil {
+		retry, _ = site.(*ssa.Call)
+		proc = host // the retry loop may live in a helper of Process
 	}
 	if retry == nil {
 		return []Obligation{undecided(R, "retrying augment call", pos, "no Augment(false) call in Process")}
@@ -549,16 +593,24 @@ func ruleProcPhases(c *Ctx) []Obligation {
 	aug := c.MustFn("yang.(*Entry).Augment")
 	fix := c.MustFn("yang.(*Entry).FixChoice")
 	dev := c.MustFn("yang.(*Entry).ApplyDeviate")
-	var retry, final []ssa.CallInstruction
-	for _, ci := range c.callsTo(proc, aug) {
-		if k, okk := ci.Common().Args[1].(*ssa.Const); okk && k.Value != nil && k.Value.String() == "true" {
-			final = append(final, ci)
-		} else {
-			retry = append(retry, ci)
+	augWith := func(want string) func(ssa.CallInstruction) bool {
+		return func(ci ssa.CallInstruction) bool {
+			if ci.Common().StaticCallee() != aug || len(ci.Common().Args) != 2 {
+				return false
+			}
+			k, okk := ci.Common().Args[1].(*ssa.Const)
+			isTrue := okk && k.Value != nil && k.Value.String() == "true"
+			return isTrue == (want == "true")
 		}
 	}
-	fixes := c.callsTo(proc, fix)
-	devs := c.callsTo(proc, dev)
+	callee := func(f *ssa.Function) func(ssa.CallInstruction) bool {
+		return func(ci ssa.CallInstruction) bool { return ci.Common().StaticCallee() == f }
+	}
+	// phases are located in Process itself or behind a helper call made from Process
+	final := c.phaseSites(proc, augWith("true"))
+	retry := c.phaseSites(proc, augWith("false"))
+	fixes := c.phaseSites(proc, callee(fix))
+	devs := c.phaseSites(proc, callee(dev))
 	pos := c.Pos(proc.Pos())
 	con := "implicit cases are inserted after the augment fixpoint"
 	okk := len(fixes) > 0 && len(retry) > 0
